@@ -116,7 +116,7 @@ def w_accessor(w, cfg):
 
     @native
     def apply_ufunc(it_, st_, func, *args, **kw):
-        calls.append({"func": func.name, "args": args, "kw": kw})
+        calls.append({"func": func.name, "args": args, "kw": kw, "guard": V.z_and(*st_.pc)})
         band = X.StubDA([z3.Int(f"b{i}") for i in range(6)], ("time",), list(range(6)), dtype="int16", name=da.name)
         sg = X.StubDA([z3.Real("lopt")], (), [None], dtype="float64")
         return (band, sg)
@@ -136,21 +136,28 @@ def w_accessor(w, cfg):
     ds = it.call_function(st, cls.methods["whitswcv"], [inst], kwargs)
     w.res.encoded.update(it.encoded)
     import numpy as np
-    ok = len(calls) == 1
+    pfacts = [z3.Real("p") > 0, z3.Real("p") < 1] if mode == "p" else []
     detail = {}
-    if ok:
-        c = calls[0]
+
+    def conc(m):
+        return {"kernel": "whitswcv", "mode": mode, "robust": cfg.get("robust"), "detail": detail,
+                "p": C.model_value(m, z3.Real("p")) if mode == "p" else None}
+    # exactly one kernel call on every path, and it is the documented one (decided per call under its path guard: p is symbolic)
+    w.discharge(f"whitswcv[{mode}].kernel_called", pfacts, V.z_or(*[c["guard"] for c in calls]) if calls else z3.BoolVal(False), concretize=conc)
+    for k, c in enumerate(calls):
         want_fn = "ws2dwcvp" if mode == "p" else "ws2dwcv"
-        ok = ok and c["func"] == want_fn
-        sr = c["args"][3] if mode == "p" else c["args"][2]
-        rb = c["args"][4] if mode == "p" else c["args"][3]
-        exp = [V.fr(float(x)) for x in np.arange(-1.8, 4.2, 0.2, dtype="float64")]
-        got = it.arr_values(st, sr) if hasattr(sr, "positions") else None
-        ok = ok and got is not None and len(got) == len(exp) and all(V.same(a, b) or a == b for a, b in zip(got, exp))
-        ok = ok and (rb is (True if cfg.get("robust") is None else cfg["robust"]))
-        detail = {"func": c["func"], "robust": str(rb), "srange_len": None if got is None else len(got)}
-    conc = lambda m: {"kernel": "whitswcv", "mode": mode, "robust": cfg.get("robust"), "detail": detail}  # noqa: E731
-    w.discharge(f"whitswcv[{mode}].defaults_and_dispatch", [], z3.BoolVal(bool(ok)), concretize=conc)
+        ok = c["func"] == want_fn
+        if ok:
+            sr = c["args"][3] if mode == "p" else c["args"][2]
+            rb = c["args"][4] if mode == "p" else c["args"][3]
+            exp = [V.fr(float(x)) for x in np.arange(-1.8, 4.2, 0.2, dtype="float64")]
+            got = it.arr_values(st, sr) if hasattr(sr, "positions") else None
+            ok = ok and got is not None and len(got) == len(exp) and all(V.same(a, b) or a == b for a, b in zip(got, exp))
+            ok = ok and (rb is (True if cfg.get("robust") is None else cfg["robust"]))
+            if mode == "p":
+                ok = ok and V.same(c["args"][2], z3.Real("p"))
+            detail = {"func": c["func"], "robust": str(rb), "srange_len": None if got is None else len(got)}
+        w.discharge(f"whitswcv[{mode}].defaults_and_dispatch[call {k}]", pfacts, z3.BoolVal(bool(ok)), guard=c["guard"], concretize=conc)
     good = isinstance(ds, X.DatasetStub) and set(ds.vars) == {"band", "sgrid"} and ds.vars["sgrid"].dtype == "float32"
     w.discharge(f"whitswcv[{mode}].dataset_band_sgrid_float32", [], z3.BoolVal(bool(good)), concretize=conc)
     if good:
